@@ -284,8 +284,8 @@ static std::shared_ptr<RecStrategy> make_strategy(const Spec & sp, std::shared_p
 // slack allowed between consecutive callback costs on the real code: relative 1e-9 (rounding of f and of the
 // norms; the branch pred_red <= 0 takes a step of size O(sqrt(u)) without looking at rho) plus an absolute floor
 // compared on norms: |f_new| <= |f_prev| (1 + MONO_REL) + MONO_ABS * fscale * (1 + iterations in between)
-// (numerical differentiation perturbs the arguments in place and does not restore them exactly, so the point
-// drifts by O(u) per iteration even when the step is rejected)
+// (the absolute floor dates from the time when numerical differentiation did not restore the arguments exactly - fixed in
+// /repo by 59fd5d3 - and is kept as the allowance for the rounding error of evaluating f near a zero residual)
 static constexpr double MONO_REL = 1e-9;
 static constexpr double MONO_ABS = 1e-13;
 
@@ -417,8 +417,9 @@ run_case(const Fam & fam, typename Fam::X x, const Spec & sp, std::shared_ptr<Re
   ++rep.strata[std::string("strategy/") + sp.strat + (sp.cont ? "+reused" : "")];
   ++rep.strata["start/" + sp.stratum];
   ++rep.strata[std::string("status/") + stname];
-  // input region of known finding C09-zero-residual-nan: an iteration with r_n == 0 that "takes" its step although
-  // lambda d_i^2 = d_i^2 / Delta (the diagonal added to J'J) is not a finite number any more
+  // input region of the former finding C09-zero-residual-nan (fixed in /repo by 16638da; unreachable through a zero
+  // residual since then, kept as a label of the failure records should it return): an iteration with r_n == 0 that
+  // "takes" its step although lambda d_i^2 = d_i^2 / Delta (the diagonal added to J'J) is not a finite number any more
   bool lam_overflow = false;
   for (auto & it : its) lam_overflow = lam_overflow || (it.rnz && it.stepped && !it.lam_ok);
   const char * region = lam_overflow ? "zero_residual_radius_underflow" : "regular";
@@ -450,6 +451,17 @@ run_case(const Fam & fam, typename Fam::X x, const Spec & sp, std::shared_ptr<Re
   } else {
     if (res.iter < 1 || its.empty() || !its.back().stepped)
       fail("status_converged", "\"what\":\"Ftol/Ptol reported but the last iteration took no step\"");
+  }
+  // zero residual (C09_zero_residual_stops / C09_zero_residual_ends_run; optim.hpp:139,147 since /repo 16638da): an iteration
+  // that sees r_n == 0 takes its step, is the last iteration of the run, and the run reports Ftol
+  for (std::size_t i = 0; i < its.size(); ++i) {
+    if (!its[i].rnz) continue;
+    if (!its[i].stepped || i + 1 != its.size() || res.status != smooth::SolveResult::Status::Ftol) {
+      fail("zero_residual_stops", "\"what\":\"an iteration with r_n == 0 did not end the run with Ftol (zero residual cannot be reduced; rho is NaN)\",\"iteration\":"
+                                    + std::to_string(i) + ",\"iterations_executed\":" + std::to_string(its.size()) + ",\"stepped\":" + (its[i].stepped ? "true" : "false"));
+      break;
+    }
+    ++rep.strata["zero_residual/iteration_with_r_n_0_ended_run_with_Ftol"];
   }
   // monotone callback costs
   for (std::size_t k = 1; k < cb_cost.size() && sp.contract; ++k) {
@@ -489,9 +501,12 @@ run_case(const Fam & fam, typename Fam::X x, const Spec & sp, std::shared_ptr<Re
       if (!(dd <= g_max_drift)) g_max_drift = dd;
     }
     const double mg = mag_tuple(x);
-    // (a callback point that already contains NaN - only reachable through a contract-breaking user strategy or the
-    //  known finding - is not compared: numerical differentiation at such a point turns every coordinate into NaN)
-    if (all_finite_tuple(cb_x.back()) && !(dd <= 1e-10 * (1 + (std::isfinite(mg) ? mg : 0))))
+    // (a callback point that already contains NaN - only reachable through a contract-breaking user strategy or a
+    //  return of the former finding C09-zero-residual-nan, which the other checks report - is not compared: numerical differentiation at such a point turns every coordinate into NaN)
+    // exact since /repo 59fd5d3 (dr_numerical restores the perturbed arguments from a saved copy; before that the
+    // arguments drifted by O(u) per iteration in Numerical mode and 1e-10 relative was tolerated here)
+    (void)mg;
+    if (all_finite_tuple(cb_x.back()) && !(dd == 0))
       fail("final_is_last_iterate", "\"what\":\"final arguments differ from the last callback point\",\"dist\":" + jnum(dd));
     // never worse than the start
     const double cf = std::apply([&](const auto &... a) { return fam.eval(a...).squaredNorm(); }, x);
